@@ -68,7 +68,7 @@ pub fn write<S: Sim>(prop: &str, tier: Tier, seed: u64, workers: usize, res: &Ch
     let mut doc = doc;
     // fold the evidence of the other passes of this check (shipping profile in the thorough tier, Python tier)
     if name == prop {
-        for (tag, key) in [("shipping", "shipping_profile_pass"), ("py", "python_tier_pass")] {
+        for (tag, key) in [("shipping", "shipping_profile_pass"), ("py", "python_tier_pass"), ("asan", "address_sanitizer_pass")] {
             let side = super::runner::verif_root().join("evidence").join(format!("{}.{}.json", prop, tag));
             if let Ok(t) = std::fs::read_to_string(&side) {
                 if let Ok(v) = serde_json::from_str::<Value>(&t) {
